@@ -121,3 +121,36 @@ Fixpoint nrun (s : nstate) (sched : list nact) : nstate :=
 Inductive reach (s0 : nstate) : nstate -> Prop :=
 | reach_refl : reach s0 s0
 | reach_step s a s' : reach s0 s -> nstep s a = Some s' -> reach s0 s'.
+
+(* ---------- a context that ends before the waiter is parked.  Wait looks at ctx only in the final select, so an early
+   cancellation is pending until then: x carries the set of waiters whose context is over.  A step of the extended
+   system is a step of the base system or leaves it unchanged, so every invariant of the base system carries over.
+   (A waiter that reaches the select with its context over AND its channel closed may return either way - Go's select
+   picks at random; the schedules the harness generates never contain that case.) *)
+Record xstate := mkX { base : nstate; canc : list nat }.
+
+Definition is_canc (x : xstate) (i : nat) : bool := existsb (Nat.eqb i) (canc x).
+
+Definition xstep (x : xstate) (a : nact) : option xstate :=
+  match a with
+  | Step i =>
+    match nth_error (threads (base x)) i with
+    | Some (W4 off b) =>
+      if is_canc x i && negb (is_closed (base x) b)
+      then option_map (fun s => mkX s (canc x)) (tcancel (base x) i)      (* the select sees ctx.Done() *)
+      else option_map (fun s => mkX s (canc x)) (tstep (base x) i)
+    | _ => option_map (fun s => mkX s (canc x)) (tstep (base x) i)
+    end
+  | Cancel i =>
+    match nth_error (threads (base x)) i with
+    | Some (W4 _ _) => option_map (fun s => mkX s (canc x)) (tcancel (base x) i)
+    | Some (W0 _) | Some (W1 _) | Some (W2 _ _) | Some (W3 _ _ _) => Some (mkX (base x) (i :: canc x))
+    | _ => None
+    end
+  end.
+
+Fixpoint xrun (x : xstate) (sched : list nact) : xstate :=
+  match sched with
+  | [] => x
+  | a :: r => match xstep x a with Some x' => xrun x' r | None => xrun x r end
+  end.
